@@ -425,8 +425,14 @@ def ident_tokens(text):
     """identifier tokens of Fortran text in order (comments, numbers, keywords and the conversion functions REAL/INT dropped;
     intrinsic names inside PRINT statements lower-cased)"""
     out = []
+    joined = []
     for line in text.splitlines():
-        code = line.split('!')[0]
+        code = line.split('!')[0].rstrip()
+        if joined and joined[-1].endswith('&'):
+            joined[-1] = joined[-1][:-1] + ' ' + code.lstrip().lstrip('&')
+        else:
+            joined.append(code)
+    for code in joined:
         in_print = code.strip().lower().startswith('print')
         for m in _LEX.finditer(code):
             if m.lastgroup == 'id' and m.group('id').lower() not in _FILTER:
@@ -465,7 +471,7 @@ _TYTXT = {'integer': 'integer', 'real': 'real', 'logical': 'logical'}
 def decl_source(stmts):
     """stmts: [(attrs 'type intent', [(name, shape or None)…])…] -> a routine with exactly these declaration statements"""
     args = [n for a, syms in stmts if a.split()[1] != 'none' for n, _ in syms]
-    lines = [f"subroutine sdecl({', '.join(['n', 'm'] + args)})", '  implicit none', '  integer, intent(in) :: n, m']
+    lines = [f"subroutine sdecl({', '.join(['n', 'm'] + args)})", '  implicit none', '  integer, intent(in) :: n', '  integer, intent(in) :: m']
     for a, syms in stmts:
         ty, it = a.split()
         pre = _TYTXT[ty] + ('' if it == 'none' else f', intent({it})')
@@ -750,7 +756,7 @@ class C40(Prop):
             sf = parse_enriched(src)
             _apply_for(kind, norm, extra)(sf)
             out = [A('decls')]
-            for a, syms in decl_stmts_of(sf['sdecl'])[1:]:      # the first statement declares n, m
+            for a, syms in decl_stmts_of(sf['sdecl'])[2:]:      # the first two statements declare n and m
                 out.append([A('stmt'), a] + [[A('sym'), A(n), A('none') if sh is None else list(sh)] for n, sh in syms])
             return out
         if kind == 'imp':
